@@ -194,6 +194,9 @@ const Cfg cfgs[] = {
   {"vmap<string,int>/consthash/stamp", mkv<VM<std::string, IntVal, R3, xp::hash<ConstHash>>>},
   {"vmap<string,managed>/lowhash/ebr0", mkv<VM<std::string, PtrVal<R1>, R1, xp::hash<StrLowHash>>>},
   {"vmap<string,managed>/consthash/hp", mkv<VM<std::string, PtrVal<R2>, R2, xp::hash<ConstHash>>>},
+  // non-default backoff policies
+  {"vmap<int,int>/backoff_exp2/ebr0", mkv<VM<int, IntVal, R1, xp::backoff<xenium::exponential_backoff<2>>>>},
+  {"vmap<int,string>/consthash/backoff_single/hp", mkv<VM<int, StrVal, R2, xp::hash<ConstHash>, xp::backoff<xenium::single_backoff>>>},
 };
 constexpr int NCFG = sizeof(cfgs) / sizeof(cfgs[0]);
 
